@@ -219,17 +219,6 @@ Qed.
 Theorem take_thm {E V} (n : Z) (l : list V) : p_take l n = (([] : list E), Ok (spec_take n l, l)).
 Proof. unfold p_take. enter. rewrite take_3_thm. reflexivity. Qed.
 
-Lemma copy_loop {E V} (cond : list V * list V * range V -> M E bool) body :
-  (forall c i, cond (c, i, Rng []) = ret false) ->
-  (forall c i a s, cond (c, i, Rng (a :: s)) = ret true) ->
-  (forall c i a s, body (c, i, Rng (a :: s)) = ret (c, push_back i a, Rng s)) ->
-  forall s c i fuel, (List.length s < fuel)%nat -> while_ fuel (c, i, Rng s) cond body = ([], Ok (c, i ++ s, Rng [])).
-Proof.
-  intros H0 H1 H2. induction s; intros; fuel0 fuel; cbn [while_].
-  - rewrite H0. cbn. rewrite app_nil_r. reflexivity.
-  - rewrite H1, bind_ret_l, H2, bind_ret_l, IHs by len. unfold push_back. rewrite <- app_assoc. reflexivity.
-Qed.
-
 Theorem drop_3_thm {E V} (n : Z) (l ins : list V) :
   p_drop_3 l n ins = (([] : list E), Ok (tt, (l, ins ++ spec_drop n l))).
 Proof.
